@@ -326,6 +326,11 @@ pub fn configure(cmd: &mut Command, toks: &[&str]) -> String {
 /// function does not know (for labs with a richer child protocol).
 pub fn collect(out: &std::process::Output, act: &str) -> (String, Vec<String>) {
     let stdout = String::from_utf8_lossy(&out.stdout).to_string();
+    // `conc=K` requests: what the concurrent phase printed ends at the marker line
+    let stdout = match stdout.find("\n@@PHASE2\n") {
+        Some(i) => stdout[i + "\n@@PHASE2\n".len()..].to_string(),
+        None => stdout,
+    };
     let stderr = String::from_utf8_lossy(&out.stderr).to_string();
     let mut log = Vec::new();
     let mut other = Vec::new();
@@ -752,6 +757,10 @@ pub fn gen(rng: &mut Rng, n: usize) -> Vec<String> {
                 }
             }
             cfg.push(format!("order={}", order.iter().map(|i| i.to_string()).collect::<Vec<_>>().join(":")));
+            // concurrent runners first (C17: one evaluation of each argument list per process)
+            if rng.chance(1, 8) {
+                cfg.push(format!("conc={}", 2 + rng.below(3)));
+            }
             if bench_mode && !cfg.iter().any(|c| c.starts_with("o.ss=")) {
                 // guarantee an explicit sample size for every benchmark
                 cfg.push("o.ss=1".into());
